@@ -63,6 +63,37 @@ pub struct Case {
     pub generated: bool,
 }
 
+/// `pick_case` with a third source: with probability `bl_weight`/10 a builtin-loop program
+/// (gens/builtin_loops.rs), run on `n_args` drawn (iteration count, seed) pairs.
+pub fn pick_case_bl(ch: &mut Choices, snippets: &[Snippet], generated_weight: u32, n_args: usize, bl_weight: u32) -> Case {
+    let pick_bl = ch.chance(bl_weight, 10);
+    let bl_seed: Vec<u32> = (0..(24 + 3 * n_args)).map(|_| ch.next()).collect();
+    if !pick_bl {
+        return pick_case(ch, snippets, generated_weight, n_args);
+    }
+    let mut c2 = Choices::new(bl_seed);
+    let p = crate::gens::builtin_loops::generate(&mut c2);
+    let args: Vec<Vec<Arg>> = (0..n_args)
+        .map(|k| {
+            let n = if k == 0 { 8 } else { c2.below(256) };
+            let seed: u128 = if c2.bool() { c2.below(16) as u128 } else { c2.u128() };
+            vec![Arg::Value((n as u64).into()), Arg::Value(seed.into())]
+        })
+        .collect();
+    let names: Vec<&str> = p.ops.iter().map(|k| crate::gens::builtin_loops::OP_NAMES[*k]).collect();
+    Case {
+        origin: format!("builtin-loops:{}/shape{}", names.join("+"), p.shape),
+        source: p.source,
+        settings: cairo::SETTINGS_2024_07,
+        func: Some("::run".into()),
+        func_choice: 0,
+        gen_args: Some(args),
+        arg_seeds: vec![],
+        expected: None,
+        generated: true,
+    }
+}
+
 pub fn pick_case(ch: &mut Choices, snippets: &[Snippet], generated_weight: u32, n_args: usize) -> Case {
     let arg_seeds: Vec<Vec<u32>> = (0..n_args).map(|_| (0..40).map(|_| ch.next()).collect()).collect();
     if snippets.is_empty() || ch.chance(generated_weight, 10) {
